@@ -41,7 +41,8 @@ func ret32(v byte) []byte {
 func StdAccounts(code []byte) []world.Account {
 	one := new(big.Int).Exp(big.NewInt(10), big.NewInt(18), nil)
 	revert := asm.New().Push32(common.HexToHash("0xdeadbeef00000000000000000000000000000000000000000000000000c0ffee")).Push(0).Op(asm.MSTORE).Push(32).Push(0).Op(asm.REVERT).Bytes()
-	loop := asm.New().Op(asm.JUMPDEST).Push(0).Op(asm.JUMP).Bytes()
+	// each iteration burns ~1.6k gas (EXP with a 32-byte exponent) so that running a frame dry takes few steps
+	loop := asm.New().Op(asm.JUMPDEST).Push32(common.HexToHash("0xffffffffffffffffffffffffffffffffffffffffffffffffffffffffffffffff")).Push(3).Op(asm.EXP, asm.POP).Push(0).Op(asm.JUMP).Bytes()
 	write := asm.New().Push(0x77).Push(3).Op(asm.SSTORE).Push(0xaa).Push(0).Push(0).Op(asm.LOG1).Append(&asm.P{B: ret32(0x40)}).Bytes()
 	die := asm.New().PushAddr(world.Origin).Op(asm.SELFDESTRUCT).Bytes()
 	echo := asm.New().Push(64).Push(0).Push(0).Op(asm.CALLDATACOPY).Op(asm.CALLVALUE).Push(64).Op(asm.MSTORE).Push(96).Push(0).Op(asm.RETURN).Bytes()
